@@ -517,8 +517,14 @@ def _composition_units():
             Unit("C01/composed-forms/scenarios/aarch64", compose_unit("aarch64"), "Pb", [(AS, "ArchSemantics.assign_tp_lt")], timeout=1500)]
 
 
+def _inspect_unit():
+    from .c11 import inspect_selection_unit
+    return inspect_selection_unit
+
+
 def units(tier):
     return [
+        Unit("C01/inspect/two-balancing-passes-iff-not-fixed", _inspect_unit(), "P", [("osaca/osaca.py", "inspect")], decisive=False),
         Unit("C01/average_port_pressure", avg_unit, "P", [(HW, "MachineModel.average_port_pressure")]),
         Unit("C01/average_port_pressure/Pb-floor", avg_pb_unit, "Pb", [(HW, "MachineModel.average_port_pressure")]),
         Unit("C01/average_port_pressure/string-port-sets", avg_strings_unit, "Pb", [(HW, "MachineModel.average_port_pressure")]),
